@@ -313,6 +313,18 @@ TIES = {
             "established by the reader and kept by assignment)", "the seven regex leaves (pattern texts asserted), "
             "Deb822Dict get/set/iter as association-list operations, str methods, the codec as identity; dump(fd=...) and "
             "iter_paragraphs are not regenerated"),
+    "C04": ("Props/C04Tie.v", 14, "ChangeBlock._format / __str__ / changes / add_change / add_trailing_line, "
+            "Changelog._format / __str__ / __init__ / _parse_error and the whole of Changelog.parse_changelog (the "
+            "line-by-line state machine: for every prior object state, input form, max_blocks, allow_empty_author, "
+            "strict and encoding — same blocks, initial lines and warning kinds, or the same error kind)",
+            "the seven interpreted regex leaves (pattern texts and flags asserted) and the thirteen junk patterns as the "
+            "model's classifier record, str/list/dict methods, ChangeBlock construction as the model's empty block, "
+            "warnings.warn as a recorded kind"),
+    "C13": ("Props/C13Tie.v", 9, "PkgRelation.str with its nested pp_arch / pp_restrictions / pp_atomic_dep, and "
+            "PkgRelation.parse_relations with its nested parse_archs / parse_restrictions / parse_rel (warnings as a "
+            "threaded counter): same string, same structure and warning count, or same error kind",
+            "the six regex leaves (pattern texts asserted), the relation dict as the model's record, str.strip/lower/join, "
+            "the two namedtuples"),
     "C14": ("Props/C14Tie.v", 11, "BaseVersion._set_full_version, _update_full_version, __setattr__ (including the "
             "try/except rollback; mutual recursion with _update_full_version on proved-sufficient fuel), __getattr__, "
             "__init__, __str__", "the re_valid_version leaf (pattern text asserted, classes regenerated), str(), the "
@@ -343,6 +355,8 @@ TIE_NOTE = ("  The translator harness/py2coq.py (rendering of the Python subset,
 TIES["C08"] = ("Props/C02Tie.v", 17, "the functions C08 is about — Deb822.validate_input, __setitem__, the reader "
                "(_skip_useless_lines, split_gpg_and_payload, _internal_parser) and the writer (_dump_format, _dump_str) — "
                "shared with C02", "as for C02")
+TIES["C15"] = ("Props/C04Tie.v", 14, "the parser and the printer that C15 is about — Changelog.parse_changelog, "
+               "_parse_error, ChangeBlock._format, add_change, Changelog._format — shared with C04", "as for C04")
 TIES["C19"] = ("Props/C18Tie.v", 5, "patches_from_ed_script and patch_lines, through which update_file applies every "
                "patch — shared with C18 (update_file itself, its I/O and fault handling are not regenerated)",
                "as for C18")
